@@ -4,14 +4,15 @@
 # 1. demo passes on a clean export of /repo HEAD and fails with the patch; 2. runs ./check <prop> against the patched
 # export (VERIF_REPO: evidence goes to evidence/scratch, never to the committed evidence).  Prints one RESULT line.
 W=$1; P=$2; T=${3:-quick}
+SUP=$(cd "$(dirname "$0")/../seeded/_support" && pwd)     # pbstub.py (the demos look for it on sys.path)
 S=$W; [ -d $W/SEED ] && S=$W/SEED
 D=$(mktemp -d /tmp/seedevalXXXX)
 git -C /repo archive HEAD | tar -x -C $D
 mkdir $D/SEED; cp $S/patch.diff $S/demo.py $D/SEED/
 cd $D
-PARANOID_REPO=$D timeout 900 /verif/.venv/bin/python SEED/demo.py > $D/demo_clean.log 2>&1; RC_CLEAN=$?
+PYTHONPATH=$SUP PARANOID_REPO=$D timeout 900 /verif/.venv/bin/python SEED/demo.py > $D/demo_clean.log 2>&1; RC_CLEAN=$?
 git init -q . 2>/dev/null; git apply --whitespace=nowarn SEED/patch.diff || { echo "PATCH DOES NOT APPLY"; rm -rf $D; exit 9; }
-PARANOID_REPO=$D timeout 900 /verif/.venv/bin/python SEED/demo.py > $D/demo_mut.log 2>&1; RC_MUT=$?
+PYTHONPATH=$SUP PARANOID_REPO=$D timeout 900 /verif/.venv/bin/python SEED/demo.py > $D/demo_mut.log 2>&1; RC_MUT=$?
 echo "demo: clean rc=$RC_CLEAN mutated rc=$RC_MUT ($(tail -1 $D/demo_mut.log | cut -c1-150))"
 cd /verif && VERIF_REPO=$D ./check $P --tier $T > $D/check.log 2>&1; RC=$?
 echo "check $P [$T] exit=$RC"; grep -h "VIOLATION\|failed:\|undecided\|checker error" $D/check.log | cut -c1-260 | head -8
